@@ -14,7 +14,9 @@ the model runner prints `<compared>` only):
   SV m=.. kh= kq= kc= cx= ca= cq= cc= sq= mh= url=<template>  download -> SV <status> none|served:<k>
   INFLIGHT <fid> <kind> <n>     the fs handler's Upload (os.Create + StartUpload + copy) WITHOUT FinishUpload:
                                 an upload that is running / was abandoned          -> INFLIGHT ok
-  USER/TOPIC/PUB/TAV/UAV/DELMSG/DELTOPIC/DELUSER/GC/DUMP      history of the link / GC part
+  USER/NEWACC/TOPIC/PUB/TAV/UAV/DELMSG/DELTOPIC/DELUSER/GC/DUMP      history of the link / GC part
+     (NEWACC = {acc user="new"} with attachments from a session that is not logged in; TOPIC = {sub topic="new"};
+      TAV / UAV = {set desc} on a group topic / on "me"; DELUSER of an owner removes its topics and their messages)
 
 Laws evaluated on the IMPLEMENTATION's answers: see LAWS below."""
 import json
@@ -449,6 +451,22 @@ def history_cases(g, count, length):
                 t = rng.choice(topics)
                 tp = [g.tpl(rng.choice(files)) if rng.random() < 0.8 else g.bad_tpl() for _ in range(rng.choice([1, 1, 2]))]
                 g.add("TAV %d %d %s" % (owner[t], t, ",".join(tp)), kind="TAV", t=t)
+            elif r < 0.66 and len(alive_users) < 4:
+                # a new account: the avatar is uploaded BEFORE the account exists (topic=newacc, no
+                # credentials; finding F1), then listed with the {acc} request that creates the account
+                q = rng.random()
+                if q < 0.6:
+                    k = g.up(**{rng.choice(["kh", "kq", "kf"]): "valid", rng.choice(["tq", "tf"]): "newacc",
+                                "body": "form:%d:1:1" % rng.choice([1300, 1800])})
+                    files.append(k)
+                    tp = [g.tpl(k)]
+                elif q < 0.85:
+                    tp = [g.tpl(rng.choice(files)) if rng.random() < 0.7 else g.bad_tpl() for _ in range(rng.choice([1, 2]))]
+                else:
+                    tp = []
+                g.nuser += 1
+                alive_users.append(g.nuser)
+                g.add("NEWACC %d %s" % (g.nuser, ",".join(tp) or "-"), kind="NEWACC", u=g.nuser)
             elif r < 0.72 and alive_users:
                 u = rng.choice(alive_users)
                 tp = [g.tpl(rng.choice(files)) if rng.random() < 0.8 else g.bad_tpl() for _ in range(rng.choice([1, 1, 2]))]
@@ -656,10 +674,10 @@ def history_expectations(g, lines, answers):
             exist = {k for k, s in files.items()}
             done = {k for k, s in files.items() if s == "1"}
             continue
-        if w[0] not in ("PUB", "TAV", "UAV", "TOPIC", "DELMSG", "DELTOPIC", "DELUSER"):
+        if w[0] not in ("PUB", "TAV", "UAV", "TOPIC", "NEWACC", "DELMSG", "DELTOPIC", "DELUSER"):
             continue
         named = []
-        tpls = w[-1] if w[0] in ("PUB", "TAV", "UAV", "TOPIC") else "-"
+        tpls = w[-1] if w[0] in ("PUB", "TAV", "UAV", "TOPIC", "NEWACC") else "-"
         if tpls != "-":
             named = [g.names.get(t) for t in tpls.split(",")]
         if w[0] == "PUB":
@@ -675,12 +693,12 @@ def history_expectations(g, lines, answers):
             elif any(k in exist for k in ks):
                 fails.append(("c16-attachment-link-all-or-nothing", i,
                               "message %d stored (reply %s) but its existing attachments %s are not linked" % (npub, side.get("code"), [k for k in ks if k in exist])))
-        elif w[0] in ("TAV", "TOPIC", "UAV"):
-            tgt = ("u" + w[1]) if w[0] == "UAV" else ("t" + (w[2] if w[0] == "TAV" else w[1]))
+        elif w[0] in ("TAV", "TOPIC", "UAV", "NEWACC"):
+            tgt = ("u" + w[1]) if w[0] in ("UAV", "NEWACC") else ("t" + (w[2] if w[0] == "TAV" else w[1]))
             first = named[0] if named else None
             # only the first resolvable attachment counts; a replaced avatar loses its link
             firstres = next((k for k in named if k is not None), None)
-            if firstres is not None and firstres in exist and cmp_.split()[1] == "200":
+            if firstres is not None and firstres in exist and cmp_.split()[1] in ("200", "201"):
                 for l in [l for l in held if l.endswith(">" + tgt)]:
                     del held[l]
                 held["%s>%s" % (firstres, tgt)] = i
@@ -1109,7 +1127,7 @@ def run(ctx):
         c = a.split(" |")[0].split()
         o = k + ":" + (" ".join(c[1:3]) if k in ("UP", "SV") else ("0" if c[1:] in (["0"], ["-"]) else "x") if k in ("ID", "FA") else "")
         outs[o] = outs.get(o, 0) + 1
-        if (k == "ID" and c[1] != "0") or (k in ("UP", "SV") and c[2] != "none") or k in ("PUB", "TAV", "UAV", "GC", "DELMSG", "DELTOPIC", "DELUSER", "INFLIGHT") \
+        if (k == "ID" and c[1] != "0") or (k in ("UP", "SV") and c[2] != "none") or k in ("PUB", "TAV", "UAV", "NEWACC", "GC", "DELMSG", "DELTOPIC", "DELUSER", "INFLIGHT") \
                 or (k == "FA" and c[1] == "1") or (k == "CL" and c[1] != l.split()[1]):
             nontrivial.add(l)
     ctx.coverage.update({
